@@ -49,9 +49,26 @@ def recover_points(binary, sess, points, tag="img"):
             crash.materialize(p.snap, root, d)
             dirs[key] = d
         order.append(key)
-    res = crash.recover_images(binary, list(dirs.values()), [k.hex() for k in sess["keys"]], NKEYS)
+    res = crash.recover_images(binary, list(dirs.values()), [k.hex() for k in sess["keys"]], NKEYS, decode=True)
     shutil.rmtree(imgroot, ignore_errors=True)
     return [res[dirs[k]] for k in order]
+
+
+def image_lines(case, points, results):
+    """one line per distinct image: the decoded disk state (SimpleDBDisk.tla variables) + what the real recovery made of it"""
+    lines = []
+    seen = set()
+    for p, r in zip(points, results):
+        if p.digest in seen and p.digest != "perm":
+            continue
+        seen.add(p.digest)
+        d = r.get("disk")
+        if d is None:      # the recovery process died before it could print (hang / crash): judged by CrashJudge only
+            continue
+        m = (list(r.get("m") or []) + ["?"] * NKEYS)[:NKEYS]
+        lines.append({"t": "img", "case": case, "idx": p.idx, "desc": p.desc, "ok": bool(r.get("ok")), "err": (r.get("err") or "")[:300], "m": m,
+                      "wals": d["wals"], "tables": d["tables"], "comp": d["comp"], "unknown": d["unknown"]})
+    return lines
 
 
 def judge_lines(case, mode, events, points, results, kind="crash", refs=None):
